@@ -7,17 +7,11 @@
            every neuron and batch sample of every class, with adaptation on or off. *)
 From Coq Require Import List ZArith Bool Reals Lra Lia.
 From Flocq Require Import Core.Raux.
-From Inferno Require Import Base.Num Base.NumR Gen.NeuronDynamics Gen.NeuronAdaptation C03.Neuron C03.KernelProofs.
+From Inferno Require Import Base.Num Base.NumR Gen.NeuronDynamics Gen.NeuronAdaptation C03.Neuron C03.NeuronSpec C03.ThresholdProofs.
 Import ListNotations.
 Open Scope R_scope.
 
 (* ------------------------------------------------------------------ one step of one cell *)
-(* the documented reset voltage of a class, as a function of the integrated voltage *)
-Definition reset_of (c : cls) (p : params RN) : R -> R :=
-  match c with
-  | GLIF2 => fun v => rest_v RN p + reset_v_mul RN p * (v - rest_v RN p) - reset_v_add RN p
-  | _ => fun _ => reset_v RN p
-  end.
 
 Lemma cls_cell_spec c p lock th x v r :
   cls_cell RN c p lock th x (v, r)
@@ -38,20 +32,6 @@ Proof.
 Qed.
 
 (* ------------------------------------------------------------------ Part B: one cell over time *)
-(* one event of a cell's history: (refrac_lock, threshold, input current) - all arbitrary *)
-Definition cev := (bool * R * R)%type.
-Definition ev_lock (e : cev) : bool := fst (fst e).
-
-Fixpoint cell_run (c : cls) (p : params RN) (ce : cell RN) (evs : list cev) : list (cellout RN) :=
-  match evs with
-  | [] => []
-  | (lock, th, x) :: tl =>
-      let o := cls_cell RN c p lock th x ce in o :: cell_run c p (o_cell RN o) tl
-  end.
-
-(* first step at which a neuron that spiked at step t may spike again is t + window *)
-Definition window (p : params RN) : nat :=
-  Z.to_nat (Z.max 1 (Zceil (refrac_t RN p / step_time RN p))).
 
 Section Cell.
 Variables (c : cls) (p : params RN).
@@ -253,41 +233,6 @@ Proof. intros until o. subst o. rewrite cls_cell_spec. apply spec_spike_resets. 
 End Cell.
 
 (* ------------------------------------------------------------------ Part C: populations *)
-(* one forward call: (effective adapt flag, refrac_lock, inputs [neuron][batch]) *)
-Definition pev := (bool * bool * list (list R))%type.
-Definition pev_lock (e : pev) : bool := snd (fst e).
-Definition pres := (list (list bool) * list (column RN))%type.
-
-Fixpoint fwd_run (c : cls) (p : params RN) (cs : list (column RN)) (evs : list pev) : list pres :=
-  match evs with
-  | [] => []
-  | (adapt, lock, xs) :: tl => let r := forward RN c p adapt lock cs xs in r :: fwd_run c p (snd r) tl
-  end.
-
-Definition at2 {A} (m : list (list A)) (i b : nat) : option A :=
-  match nth_error m i with Some row => nth_error row b | None => None end.
-Definition cell_at (cs : list (column RN)) (i b : nat) : option (cell RN) :=
-  match nth_error cs i with Some col => nth_error (cells RN col) b | None => None end.
-(* what forward returned for / left in cell (i, b): (spike, voltage, refrac) *)
-Definition obs_at (r : pres) (i b : nat) : option (cellout RN) :=
-  match at2 (fst r) i b, cell_at (snd r) i b with
-  | Some s, Some ce => Some (s, fst ce, snd ce)
-  | _, _ => None
-  end.
-
-(* the history seen by cell (i, b) inside a population run: its threshold and input current at every step are
-   computed from the column's adaptation state at that step (so they depend on the whole batch) *)
-Fixpoint cell_events (c : cls) (p : params RN) (cs : list (column RN)) (evs : list pev) (i b : nat) : list cev :=
-  match evs with
-  | [] => []
-  | (adapt, lock, xs) :: tl =>
-      match nth_error cs i, at2 xs i b with
-      | Some col, Some x =>
-          (lock, cls_thresh RN c p (ad RN col), cls_input RN c (ad RN col) x)
-            :: cell_events c p (snd (forward RN c p adapt lock cs xs)) tl i b
-      | _, _ => []
-      end
-  end.
 
 Lemma nth_error_map2 {A B C} (f : A -> B -> C) l l' i :
   nth_error (map2 f l l') i =
@@ -319,8 +264,6 @@ Proof.
   unfold o_cell, o_spike, o_v, o_r. cbn [fst snd]. destruct o as [[s v] rr]. reflexivity.
 Qed.
 
-Definition shaped (evs : list pev) (i b : nat) : Prop :=
-  Forall (fun e : pev => at2 (snd e) i b <> None) evs.
 
 (* SIMULATION: inside any population run of any class (adaptation on or off, any batch size), the sequence of
    observations of cell (i, b) is exactly the cell run driven by the history [cell_events] *)
@@ -463,3 +406,97 @@ Proof.
   rewrite Rmax_right by lra. split; [tauto|auto].
 Qed.
 End Population.
+
+(* ------------------------------------------------------------------ whole-matrix invariants *)
+Lemma Forall_map2_l {A B C} (f : A -> B -> C) (P : A -> Prop) (Q : C -> Prop) l l' :
+  (forall a b, P a -> Q (f a b)) -> Forall P l -> Forall Q (map2 f l l').
+Proof.
+  intros H HF. revert l'. induction HF as [|a l Ha HF IH]; intros [|b l']; cbn; constructor; auto.
+Qed.
+Lemma Forall_map2_r {A B C} (f : A -> B -> C) (P : B -> Prop) (Q : C -> Prop) l l' :
+  (forall a b, P b -> Q (f a b)) -> Forall P l' -> Forall Q (map2 f l l').
+Proof.
+  intros H HF. revert l. induction HF as [|b l' Hb HF IH]; intros [|a l]; cbn; try constructor; auto.
+Qed.
+Lemma Forall_map2_any {A B C} (f : A -> B -> C) (Q : C -> Prop) l l' :
+  (forall a b, Q (f a b)) -> Forall Q (map2 f l l').
+Proof. intros H. revert l'. induction l as [|a l IH]; intros [|b l']; cbn; constructor; auto. Qed.
+
+
+Section Matrix.
+Variables (c : cls) (p : params RN).
+Hypothesis Hok : ctor_ok RN c p = true.
+Let dt := step_time RN p.
+Let Rt := refrac_t RN p.
+
+(* after ANY forward call (whatever the state before) every remaining refractory time is >= 0 *)
+Theorem population_refrac_nonneg :
+  forall adapt lock cs xs, all_cells (fun ce => 0 <= snd ce) (snd (forward RN c p adapt lock cs xs)).
+Proof.
+  intros. unfold all_cells, forward. cbn [snd]. rewrite Forall_map.
+  apply Forall_map2_any. intros col row. unfold col_forward. cbn [snd cells]. rewrite Forall_map.
+  unfold col_outs. apply Forall_map2_any. intros x [v r]. unfold o_cell; cbn [snd].
+  rewrite cls_cell_spec. apply spec_refrac_nonneg. apply (HRt c p Hok).
+Qed.
+
+(* refrac <= refrac_t is preserved by forward *)
+Theorem population_refrac_le :
+  forall adapt lock cs xs, all_cells (fun ce => snd ce <= Rt) cs ->
+    all_cells (fun ce => snd ce <= Rt) (snd (forward RN c p adapt lock cs xs)).
+Proof.
+  intros adapt lock cs xs H. unfold all_cells, forward. cbn [snd]. rewrite Forall_map.
+  eapply Forall_map2_l; [|exact H]. intros col row Hc. cbn beta in Hc. unfold col_forward. cbn [snd cells]. rewrite Forall_map.
+  unfold col_outs. eapply Forall_map2_r; [|exact Hc]. intros x [v r] Hr. unfold o_cell; cbn [snd] in *.
+  rewrite cls_cell_spec. apply spec_refrac_le; [apply (Hdt c p Hok)|apply (HRt c p Hok)|exact Hr].
+Qed.
+
+(* SPIKE ATTRIBUTE, whole tensors: with refrac_t > 0, after every forward call the attribute `spike`
+   (refrac == refrac_t) IS the tensor of spikes that the call returned *)
+Theorem population_spike_attr_eq_output :
+  0 < Rt -> forall adapt lock cs xs, all_cells (fun ce => snd ce <= Rt) cs ->
+    let r := forward RN c p adapt lock cs xs in spike_attr RN p (snd r) = fst r.
+Proof.
+  intros HR adapt lock cs xs H r. subst r. unfold forward, spike_attr. cbn [fst snd].
+  rewrite map_map.
+  assert (HF : Forall (fun y : list bool * column RN =>
+                 map (fun ce : cell RN => eqb RN (snd ce) (refrac_t RN p)) (cells RN (snd y)) = fst y)
+               (map2 (col_forward RN c p adapt lock) cs xs)).
+  { eapply Forall_map2_l; [|exact H]. intros col row Hc. cbn beta in Hc. unfold col_forward. cbn [fst snd cells].
+    rewrite map_map. unfold col_outs.
+    assert (HQ : Forall (fun o => eqb RN (snd (o_cell RN o)) (refrac_t RN p) = o_spike RN o)
+                   (map2 (fun x ce => cls_cell RN c p lock (cls_thresh RN c p (ad RN col)) (cls_input RN c (ad RN col) x) ce)
+                      row (cells RN col))).
+    { eapply Forall_map2_r; [|exact Hc]. intros x [v r] Hr. cbn [snd] in Hr. unfold o_cell, o_spike; cbn [snd].
+      rewrite cls_cell_spec. rn_simpl. apply spec_spike_attr; [apply (Hdt c p Hok)|exact HR|exact Hr]. }
+    induction HQ as [|o l Ho _ IH]; cbn [map]; [reflexivity|]. rewrite Ho, IH. reflexivity. }
+  induction HF as [|y l Hy _ IH]; cbn [map]; [reflexivity|]. rewrite Hy, IH. reflexivity.
+Qed.
+
+(* ... along every run of forward calls that starts from a state with refrac <= refrac_t (construction, clear) *)
+Theorem population_run_spike_attr :
+  0 < Rt -> forall evs cs, all_cells (fun ce => snd ce <= Rt) cs ->
+    Forall (fun r : pres => spike_attr RN p (snd r) = fst r /\ all_cells (fun ce => 0 <= snd ce <= Rt) (snd r))
+      (fwd_run c p cs evs).
+Proof.
+  intros HR. induction evs as [|[[adapt lock] xs] tl IH]; intros cs H; cbn [fwd_run]; constructor.
+  - split; [apply population_spike_attr_eq_output; assumption|].
+    pose proof (population_refrac_nonneg adapt lock cs xs) as H0.
+    pose proof (population_refrac_le adapt lock cs xs H) as H1.
+    unfold all_cells in *. rewrite Forall_forall in *. intros col Hin.
+    specialize (H0 col Hin). specialize (H1 col Hin). rewrite Forall_forall in *. intros ce Hce. split; auto.
+  - apply IH. apply population_refrac_le. exact H.
+Qed.
+
+(* the constructor state and the state after clear() satisfy the hypothesis refrac <= refrac_t *)
+Theorem init_refrac_le : forall n b, all_cells (fun ce => snd ce <= Rt) (cols RN (init RN c p n b)).
+Proof.
+  intros. unfold init, all_cells. cbn [cols]. apply Forall_forall. intros col Hin. apply repeat_spec in Hin. subst col.
+  cbn [cells]. apply Forall_forall. intros ce Hin. apply repeat_spec in Hin. subst ce. cbn [snd]. apply (HRt c p Hok).
+Qed.
+Theorem clear_refrac_le : forall keep cs, all_cells (fun ce => snd ce <= Rt) (clear RN c p keep cs).
+Proof.
+  intros. unfold clear, all_cells. rewrite Forall_map. apply Forall_forall. intros col _. cbn [cells].
+  rewrite Forall_map. apply Forall_forall. intros ce _. cbn [snd]. apply (HRt c p Hok).
+Qed.
+End Matrix.
+
